@@ -60,11 +60,15 @@ struct Gen<'a> {
     feats: Vec<&'static str>,
     /// names of the functions whose body is being generated (no recursive calls)
     hidden: Vec<String>,
+    /// per open scope: names referenced so far inside it (Erg makes the functions of a block visible in the WHOLE block, so a function must
+    /// not be defined under a name that was already referenced in the block — the reference would silently change its meaning)
+    used: Vec<Vec<String>>,
 }
 
 const NAMES: [&str; 9] = ["x", "y", "a", "b", "c", "k", "m", "n", "w"];
 const FNAMES: [&str; 5] = ["f", "g", "h", "p", "q"];
-const STRS: [&str; 7] = ["\"T1\"", "\"T\\tQ\"", "\"A\\\\B\"", "\"N\\nM\"", "\"\"", "\"Q\\\"R\"", "\"PLAIN TEXT\""];
+/// string literals placed BEFORE names on the same line: plain, with escapes, with non-ASCII characters of the BMP (1 UTF-16 unit, 2–3 UTF-8 bytes) and an astral one (2 UTF-16 units, 4 bytes)
+const STRS: [&str; 11] = ["\"OK\u{1f600}\"", "\"T1\"", "\"T\\tQ\"", "\"A\\\\B\"", "\"N\\nM\"", "\"\"", "\"Q\\\"R\"", "\"PLAIN TEXT\"", "\"CAF\u{e9}: X\"", "\"\u{65e5}\u{672c}\"", "\"\u{df}\\t\u{e9}\""];
 
 impl<'a> Gen<'a> {
     fn tok(&mut self, name: &str) -> usize { self.toks.push(Tok { name: name.to_string(), ..Default::default() }); self.toks.len() - 1 }
@@ -83,12 +87,14 @@ impl<'a> Gen<'a> {
     fn funs(&self) -> Vec<(String, usize, usize)> {
         self.visible().into_iter().filter_map(|(n, k)| if let Kind::Fun { req, total } = k { Some((n, req, total)) } else { None }).filter(|(n, _, _)| !self.hidden.contains(n)).collect()
     }
+    fn mark_used(&mut self, n: &str) { for u in self.used.iter_mut() { u.push(n.to_string()); } }
     fn in_current(&self, n: &str) -> bool { self.scopes.last().unwrap().iter().any(|(m, _)| m == n) }
 
     fn atom(&mut self) -> GE {
         let vs = self.vars();
         if !vs.is_empty() && self.rng.chance(3, 4) {
             let n = vs[self.rng.below(vs.len() as u64) as usize].clone();
+            self.mark_used(&n);
             GE::Var(self.tok(&n))
         } else { GE::Lit(self.rng.below(20) as u32) }
     }
@@ -99,6 +105,7 @@ impl<'a> Gen<'a> {
             4..=6 if depth > 0 => GE::Add(Box::new(self.expr(depth - 1)), Box::new(self.expr(depth - 1))),
             7 | 8 if !fs.is_empty() && depth > 0 => {
                 let (n, req, total) = fs[self.rng.below(fs.len() as u64) as usize].clone();
+                self.mark_used(&n);
                 let t = self.tok(&n);
                 let k = req + self.rng.below((total - req + 1) as u64) as usize;
                 let args = (0..k).map(|_| self.atom()).collect();
@@ -137,7 +144,8 @@ impl<'a> Gen<'a> {
         (ps, req)
     }
     fn def_f(&mut self, nested: bool) -> Option<GS> {
-        let name = self.fresh_name(&FNAMES, &[])?;
+        let avoid = self.used.last().cloned().unwrap_or_default();
+        let name = self.fresh_name(&FNAMES, &avoid)?;
         let tok = self.tok(&name);
         let id = self.id();
         let np = if nested { self.rng.below(2) as usize } else { 1 + self.rng.below(2) as usize };
@@ -148,6 +156,7 @@ impl<'a> Gen<'a> {
         let mut sc = vec![];
         for p in &ps { sc.push((self.toks[p.tok].name.clone(), Kind::Var)); }
         self.scopes.push(sc);
+        self.used.push(vec![]);
         self.hidden.push(name.clone());
         let pnames: Vec<String> = ps.iter().map(|p| self.toks[p.tok].name.clone()).collect();
         let mut body = vec![];
@@ -168,6 +177,7 @@ impl<'a> Gen<'a> {
         let last = self.expr(2);
         body.push(GS::Expr(last));
         self.scopes.pop();
+        self.used.pop();
         self.hidden.pop();
         // hide self-recursion: remove and re-add is unnecessary, calls are only generated to visible funs; a call to itself inside the
         // body would not terminate, so bodies are generated with the function temporarily marked as a variable-free name
@@ -186,14 +196,16 @@ impl<'a> Gen<'a> {
                     out.push(GS::DefV { id: i, tok: t, rhs });
                 },
                 3..=5 => if let Some(d) = self.def_f(false) { out.push(d); },
-                6 => if let Some(nm) = self.fresh_name(&FNAMES, &[]) {
+                6 => if let Some(nm) = { let avoid = self.used.last().cloned().unwrap_or_default(); self.fresh_name(&FNAMES, &avoid) } {
                     // a lambda bound to a name: `h = a -> a + x`
                     self.feats.push("lambda");
                     let np = 1 + self.rng.below(2) as usize;
                     let (ps, _) = self.params(np, false);
                     self.scopes.push(ps.iter().map(|p| (self.toks[p.tok].name.clone(), Kind::Var)).collect());
+                    self.used.push(vec![]);
                     let body = self.expr(1);
                     self.scopes.pop();
+                    self.used.pop();
                     let t = self.tok(&nm);
                     let i = self.id();
                     let total = ps.len();
@@ -221,7 +233,8 @@ impl<'a> Gen<'a> {
 
 struct W<'a> { out: String, line: u32, col: u32, toks: &'a mut Vec<Tok> }
 impl<'a> W<'a> {
-    fn s(&mut self, t: &str) { for c in t.chars() { if c == '\n' { self.line += 1; self.col = 0; } else { self.col += 1; } } self.out.push_str(t); }
+    /// `col` counts UTF-16 code units (LSP positions)
+    fn s(&mut self, t: &str) { for c in t.chars() { if c == '\n' { self.line += 1; self.col = 0; } else { self.col += c.len_utf16() as u32; } } self.out.push_str(t); }
     fn name(&mut self, tok: usize) { self.toks[tok].line = self.line; self.toks[tok].col = self.col; let n = self.toks[tok].name.clone(); self.s(&n); }
     fn expr(&mut self, e: &GE, paren: bool) {
         match e {
@@ -341,6 +354,13 @@ fn edits_of(v: &Value, uri: &Url) -> Result<Vec<Edit>, String> {
 
 fn show_edits(es: &[Edit]) -> String { es.iter().map(|e| format!(" ({} {} {})", e.0, e.1, e.2)).collect() }
 
+/// index of the character at UTF-16 column `col` (clamped to the line; a column inside a surrogate pair counts as after the character)
+fn u16idx(ln: &[char], col: usize) -> usize {
+    let (mut k, mut i) = (col, 0);
+    while i < ln.len() && k > 0 { k = k.saturating_sub(ln[i].len_utf16()); i += 1; }
+    i
+}
+
 /// mirror of the driver's `applyEdits`: last edit first, columns clamped to the line
 fn apply_edits(src: &str, es: &[Edit]) -> String {
     let mut lines: Vec<Vec<char>> = src.split('\n').map(|l| l.chars().collect()).collect();
@@ -348,8 +368,8 @@ fn apply_edits(src: &str, es: &[Edit]) -> String {
     es.sort();
     for e in es.iter().rev() {
         if let Some(ln) = lines.get_mut(e.0 as usize) {
-            let c0 = (e.1 as usize).min(ln.len());
-            let c1 = (e.2.max(e.1) as usize).min(ln.len());
+            let c0 = u16idx(ln, e.1 as usize);
+            let c1 = u16idx(ln, e.2.max(e.1) as usize);
             let mut n: Vec<char> = ln[..c0].to_vec();
             n.extend(NEW_NAME.chars());
             n.extend_from_slice(&ln[c1..]);
@@ -467,7 +487,7 @@ fn run_prog(id: &str, p: &mut Prog, root: &Path) -> (String, String) {
 }
 
 fn gen_prog(rng: &mut Rng, feats: &mut Vec<&'static str>) -> Prog {
-    let mut g = Gen { rng, toks: vec![], next_id: 0, scopes: vec![vec![]], feats: vec![], hidden: vec![] };
+    let mut g = Gen { rng, toks: vec![], next_id: 0, scopes: vec![vec![]], feats: vec![], hidden: vec![], used: vec![vec![]] };
     let ss = g.program();
     feats.extend(g.feats.iter());
     let mut toks = g.toks;
@@ -515,8 +535,7 @@ fn run_parallel(cases: &[(String, String)], jobs: usize) {
 fn main() {
     quiet_panics();
     let a = parse_args();
-    let root = PathBuf::from(format!("/tmp/ergverif-c30-{}", std::process::id()));
-    std::fs::create_dir_all(&root).unwrap();
+    let root = scratch_dir("c30");
     std::env::set_current_dir(&root).unwrap();
     let jobs: usize = std::env::var("VERIF_JOBS").ok().and_then(|s| s.parse().ok()).unwrap_or(6);
     match a.mode.as_str() {
